@@ -209,6 +209,60 @@ mod verif_c04 {
         std::mem::forget(client);
     }
 
+    // ---- the bare call forms (count, incr, decr, time, ...): whatever route they take inside the client, the
+    // formatter they hand to MetricFormatter::format carries the client's defaults
+    static FMT_CALLS: std::sync::atomic::AtomicUsize = std::sync::atomic::AtomicUsize::new(0);
+    static FMT_TAGS: std::sync::atomic::AtomicUsize = std::sync::atomic::AtomicUsize::new(99);
+    static FMT_CID: std::sync::atomic::AtomicUsize = std::sync::atomic::AtomicUsize::new(99);
+    fn format_recording_stub<'a>(f: &MetricFormatter<'a>) -> String where 'a: 'a {
+        use std::sync::atomic::Ordering::SeqCst;
+        FMT_CALLS.fetch_add(1, SeqCst);
+        FMT_TAGS.store(f.tags.len(), SeqCst);
+        FMT_CID.store(f.container_id.is_some() as usize, SeqCst);
+        String::from("a")
+    }
+    macro_rules! bare_form {
+        ($name:ident, $n:expr, $c:ident => $call:expr) => {
+            #[kani::proof]
+            #[kani::unwind(5)]
+            #[kani::stub(crate::builder::MetricFormatter::format, format_recording_stub)]
+            fn $name() {
+                use std::sync::atomic::Ordering::SeqCst;
+                let client = any_client($n);
+                let $c = &client;
+                let r = $call;
+                assert!(r.is_ok(), "[C03] a valid value accepted by the sink is Ok");
+                assert!(FMT_CALLS.load(SeqCst) == 1, "[C03] one call formats one metric");
+                assert!(FMT_TAGS.load(SeqCst) == $n, "[C04] the bare call form carries all default tags (and nothing else)");
+                assert!(FMT_CID.load(SeqCst) == cid_of(&client).is_some() as usize, "[C04] the bare call form carries the default container id exactly when one is configured, whether or not default tags exist");
+                kani::cover!(cid_of(&client).is_some(), "default container id");
+                kani::cover!(cid_of(&client).is_none(), "no container id");
+                std::mem::forget(r);
+                std::mem::forget(client);
+            }
+        };
+    }
+    //@H name=c04_bare_incr_0 props=C04,C20 bound="0 default tags, container id or not" fn=CountedExt::incr :: incr(key) on a client without default tags still carries the default container id
+    bare_form!(c04_bare_incr_0, 0, c => c.incr("k"));
+    //@H name=c04_bare_decr_0 props=C04,C20 bound="0 default tags, container id or not" fn=CountedExt::decr :: decr(key) likewise
+    bare_form!(c04_bare_decr_0, 0, c => c.decr("k"));
+    //@H name=c04_bare_incr_2 props=C04,C20 tier=thorough bound="2 default tags" fn=CountedExt::incr :: incr(key) with 2 default tags
+    bare_form!(c04_bare_incr_2, 2, c => c.incr("k"));
+    //@H name=c04_bare_count_0 props=C04,C20 bound="0 default tags, container id or not" fn=Counted::count :: count(key, v) bare form
+    bare_form!(c04_bare_count_0, 0, c => c.count("k", 3i64));
+    //@H name=c04_bare_time_0 props=C04,C20 bound="0 default tags, container id or not" fn=Timed::time :: time(key, v) bare form
+    bare_form!(c04_bare_time_0, 0, c => c.time("k", 3u64));
+    //@H name=c04_bare_gauge_0 props=C04,C20 bound="0 default tags, container id or not" fn=Gauged::gauge :: gauge(key, v) bare form
+    bare_form!(c04_bare_gauge_0, 0, c => c.gauge("k", 3u64));
+    //@H name=c04_bare_meter_2 props=C04,C20 tier=thorough bound="2 default tags" fn=Metered::meter :: meter(key, v) bare form
+    bare_form!(c04_bare_meter_2, 2, c => c.meter("k", 3u64));
+    //@H name=c04_bare_hist_0 props=C04,C20 tier=thorough bound="0 default tags, container id or not" fn=Histogrammed::histogram :: histogram(key, v) bare form
+    bare_form!(c04_bare_hist_0, 0, c => c.histogram("k", 3u64));
+    //@H name=c04_bare_dist_0 props=C04,C20 tier=thorough bound="0 default tags, container id or not" fn=Distributed::distribution :: distribution(key, v) bare form
+    bare_form!(c04_bare_dist_0, 0, c => c.distribution("k", 3u64));
+    //@H name=c04_bare_set_0 props=C04,C20 tier=thorough bound="0 default tags, container id or not" fn=Setted::set :: set(key, v) bare form
+    bare_form!(c04_bare_set_0, 0, c => c.set("k", 3i64));
+
     //@H name=c04_error_builder props=C03,C04,C20 fn=MetricBuilder::with_tag.. on a rejected value :: decorating a rejected value keeps the error (nothing is formatted)
     #[kani::proof]
     #[kani::unwind(5)]
